@@ -46,9 +46,6 @@ func buildPathOps(m *Model, choices []int, salt uint64, maxOps int) (ops []Op, b
 			inv := m.pending
 			if polls < inv.Sched.Polls {
 				polls++
-				if tp.Chance(10, "snapwhilepending") {
-					ops = append(ops, Op{K: "snapshot"}) // the host may look at the runner while a command is pending
-				}
 				ops = append(ops, recordNext(m, junkArgs[int((salt+uint64(len(ops)))%uint64(len(junkArgs)))]))
 				continue
 			}
@@ -345,6 +342,9 @@ func driveTape(tp *Tape, m *Model, cfg *DriveCfg, st *Stats) (ops []Op, choices 
 			}
 			if polls < inv.Sched.Polls {
 				polls++
+				if tp.Chance(10, "snapwhilepending") {
+					ops = append(ops, Op{K: "snapshot"}) // the host may look at the runner while a command is pending
+				}
 				if tp.Chance(15, "advbetween") {
 					advance(int64(tp.Int(1, 5000, "advms")) * 1e6)
 				}
